@@ -41,11 +41,12 @@ def shards(tier: str, seed: int) -> List[Dict[str, Any]]:
             for c in cfgs[2:]:
                 # configurations with non-default constructor objects (custom reward coefficients / rewards): state
                 # shared between instances of a class shows up only here
-                if "reward_coeffs" in c or "rewards" in c:
+                if any(k in c for k in ("reward_coeffs", "rewards", "db_dtype", "np_db", "maze", "container")):
                     out.append({"id": f"{e}|{c['id']}", "env": e, "cfg": c, "eager": True, "weight": HEAVY.get(e, 1.0)})
         else:
-            for i, c in enumerate(cfgs[:4]):
-                out.append({"id": f"{e}|{c['id']}", "env": e, "cfg": c, "eager": i in (1, 2), "xproc": i == 0, "weight": HEAVY.get(e, 1.0)})
+            for i, c in enumerate(cfgs):
+                if i < 4 or any(k in c for k in ("reward_coeffs", "rewards", "db_dtype", "np_db", "maze", "container")):
+                    out.append({"id": f"{e}|{c['id']}", "env": e, "cfg": c, "eager": i in (1, 2) or i >= 4, "xproc": i == 0, "weight": HEAVY.get(e, 1.0)})
     return out
 
 
@@ -185,6 +186,23 @@ def collect_calls(runner, seed, sid, rng, n_eps: int, cap: int):
             m = A.get_mask(t_)
             calls.append((s_, A.sample_masked(runner.env_name, runner.spec, m, rng)[0], f"ep{ep}t{i}legal", kint))
             calls.append((s_, A.sample_random(runner.spec, rng), f"ep{ep}t{i}random", kint))
+    # transitions in which something happens (food loaded, shelf delivered, line cleared, box pushed onto a target, agent
+    # connected ...): found by the models' own workloads, recognised by a non-zero reward or a LAST step
+    try:
+        from jmon.modelapi import ModelCtx
+        from jmon.rollout import run_episode
+
+        P = ModelCtx(runner.env_name, runner.cfg, Report("C02", "workload"), env=runner.env, rng=rng)
+        extra = P.call("policies") if P.has("policies") else {}
+        for j, nm in enumerate([n for n in ("complete", "collide", "greedy") if n in extra][:2]):
+            key, kint = key_for(seed, sid + "|events", j)
+            info = run_episode(runner, key, kint, extra[nm], rng, [], episode=100 + j, max_steps=cap * 2)
+            tr = info["trace"]
+            ev_idx = [i for i in range(1, len(tr)) if np.any(tr[i].reward != 0) or tr[i].last]
+            for i in sorted(set(ev_idx[:2] + ev_idx[-1:])):
+                calls.append((tr[i].prev_state, tr[i].action, f"{nm}-event-t{i}", kint))
+    except Exception as e:  # workload only
+        calls.append((calls[0][0], calls[0][1], f"event-workload-failed:{type(e).__name__}", calls[0][3]))
     return keys, calls
 
 
@@ -284,6 +302,13 @@ def run_shard(shard: Dict[str, Any], rep: Report) -> None:
         rep.count("fresh_instance_pairs")
         if digest_decoded(dec_pair(s, t)) != d1:
             viol("fresh_instance_step", {"call": tag})
+
+    # constructor arguments shared by both instances (NumPy databases, maze lists) must still hold what the caller put in
+    if E.shared_args_count():
+        rep.evaluated(1)
+        rep.count("shared_constructor_arguments_checked")
+        for pr in E.shared_args_problems():
+            viol("constructor_argument_mutated", {"problem": pr})
 
     # the last objects constructed before the new traces below are siblings, not instances of this configuration
     build_siblings()
@@ -448,7 +473,18 @@ def run_shard(shard: Dict[str, Any], rep: Report) -> None:
                 bad = tree_diff(_canon(dec_pair(ns, nt)), _canon(dec_pair(js, jt)), **tol)
                 if bad:
                     viol("eager_step_equals_jit", {"fields": bad[:6], "call": tag + " (NumPy-leaf state)"})
-            for (s0, a, tag, kint2) in calls[:: max(1, len(calls) // 3)][:3]:
+            pass
+    # eager calls on collected (jitted) states: on every shard for the transitions in which something happens, and on the
+    # eager shards also for a spread of ordinary ones
+    if True:
+        if True:
+            ev_calls = [c for c in calls if "-event-" in c[2]]
+            sel_calls = ev_calls[: (3 if tier == "quick" else 8)]
+            if shard.get("eager"):
+                sel_calls = calls[:: max(1, len(calls) // 3)][:3] + sel_calls
+            for (s0, a, tag, kint2) in sel_calls:
+                if "-event-" in tag:
+                    rep.count("eager_event_transitions")
                 snap = snapshot(s0)
                 try:
                     ns, nt = env.step(s0, A.as_action(runner.spec, a))
